@@ -24,7 +24,7 @@ fn no_debug_stats(_s: &mut DebugStats, _pi: &PackInfo, _todo: PackToDo, _status:
 /// last outstanding reference is met in this pack makes the pack used; after the call no id that occurs
 /// in a pack counted as used here is still outstanding (so no later pack is the "only" holder wrongly).
 #[kani::proof]
-#[kani::unwind(5)]
+#[kani::unwind(34)]
 fn c02_bounded_from_pack_accounting() {
     let ids: [u8; 3] = [kani::any(), kani::any(), kani::any()];
     kani::assume(ids[0] >= 1 && ids[0] <= 2 && ids[1] >= 1 && ids[1] <= 2 && ids[2] >= 1 && ids[2] <= 2);
